@@ -887,7 +887,7 @@ Proof. destruct a, b; cbn; try discriminate; [intros H; apply Z.eqb_eq in H; con
 
 Lemma params_eqb_eq a b : params_eqb a b = true -> a = b.
 Proof.
-  destruct a, b. unfold params_eqb. cbn [p_enc p_comp p_level p_bits p_tid p_reconnect p_tgid p_tgcount p_tgidx].
+  destruct a as [a1 a2 a3 a4 a5 a6 a7 a8 a9], b as [b1 b2 b3 b4 b5 b6 b7 b8 b9]. unfold params_eqb. cbn [p_enc p_comp p_level p_bits p_tid p_reconnect p_tgid p_tgcount p_tgidx].
   rewrite !andb_true_iff. intros [[[[[[[[H1 H2] H3] H4] H5] H6] H7] H8] H9].
   apply bytes_eqb_eq in H1, H2, H5, H7. apply Z_opt_eqb_eq in H3, H4. apply eqb_prop in H6.
   apply Z.eqb_eq in H8, H9. congruence.
@@ -905,12 +905,14 @@ Lemma long_value_misread_b :
 Proof. vm_compute. reflexivity. Qed.
 
 Lemma long_value_misread :
-  exists p p', validate p = Some p /\ transportable_p p /               unmarshal_bin (frames (marshal_kv p)) = Some p' /\ p_tid p' <> p_tid p.
+  exists p p', validate p = Some p /\ transportable_p p /\
+               unmarshal_bin (frames (marshal_kv p)) = Some p' /\ p_tid p' <> p_tid p.
 Proof.
   exists long_p, (mkP enc_json [] None None [] false [] 0 0).
   pose proof long_value_misread_b as H. rewrite !andb_true_iff in H. destruct H as [[[H1 H2] _] H4].
-  split; [now apply oparams_eqb_eq|]. split; [now apply transportable_iff|].
-  split; [now apply oparams_eqb_eq|]. discriminate.
+  split; [exact (oparams_eqb_eq _ _ H1)|]. split; [apply transportable_iff; exact H2|].
+  split; [exact (oparams_eqb_eq _ _ H4)|].
+  unfold long_p, long_tid. cbn [p_tid app]. discriminate.
 Qed.
 
 (* text that is not UTF-8 is silently replaced by U+FFFD on the way out (every carrier) *)
